@@ -128,7 +128,8 @@ std::string relativeDir(const std::string &fromDir, const std::string &toDir)
 Graph generateGraph(Rng &rng, const GraphParams &gp)
 {
     Graph g;
-    long nFiles = rng.range(2, std::max<long>(2, gp.maxFiles));
+    const bool heavy = gp.unitsHeavy;
+    long nFiles = heavy ? rng.range(std::max<long>(3, gp.maxFiles - 1), gp.maxFiles + 1) : rng.range(2, std::max<long>(2, gp.maxFiles));
     static const char *dirs[] = {"/w/", "/w/a/", "/w/b/"};
     long nDirs = rng.range(1, 3);
     for (long i = 0; i < nFiles; ++i) {
@@ -144,7 +145,7 @@ Graph generateGraph(Rng &rng, const GraphParams &gp)
         FileSpec &f = g.files[size_t(i)];
         bool canImport = i + 1 < nFiles;
         // imported units
-        long nIU = canImport ? rng.range(0, 2) : 0;
+        long nIU = canImport ? (heavy ? rng.range(1, 3) : rng.range(0, 2)) : 0;
         if (i == 0 && canImport && nIU == 0 && rng.chance(1, 2)) {
             nIU = 1;
         }
@@ -160,16 +161,28 @@ Graph generateGraph(Rng &rng, const GraphParams &gp)
             u.targetFile = int(j);
             u.href = hrefBetween(f.dir, t.path);
             u.ref = t.units[rng.below(t.units.size())].name;
+            if (heavy && rng.chance(2, 3)) {
+                // carry on along a chain: refer to units the target itself imports
+                std::vector<std::string> imp;
+                for (auto &e : t.units) {
+                    if (e.imported) {
+                        imp.push_back(e.name);
+                    }
+                }
+                if (!imp.empty()) {
+                    u.ref = imp[rng.below(imp.size())];
+                }
+            }
             f.units.push_back(u);
         }
         // local units (children refer to standard units or to units already defined in this file)
-        long nLU = rng.range(1, 3);
+        long nLU = heavy ? rng.range(1, 2) : rng.range(1, 3);
         for (long k = 0; k < nLU; ++k) {
             UnitsSpec u;
             u.name = "u" + str(i) + "_" + str(k);
-            long nc = rng.range(1, 3);
+            long nc = heavy ? rng.range(2, 3) : rng.range(1, 3);
             for (long c = 0; c < nc; ++c) {
-                if (!f.units.empty() && rng.chance(1, 2)) {
+                if (!f.units.empty() && (heavy ? rng.chance(3, 4) : rng.chance(1, 2))) {
                     // candidates: earlier units of this file
                     std::vector<std::string> cands;
                     for (auto &e : f.units) {
@@ -195,8 +208,8 @@ Graph generateGraph(Rng &rng, const GraphParams &gp)
             f.units.push_back(u);
         }
         // components
-        long nIC = canImport ? rng.range(0, 2) : 0;
-        long nLC = rng.range(1, 3);
+        long nIC = canImport ? (heavy ? rng.range(0, 1) : rng.range(0, 2)) : 0;
+        long nLC = heavy ? 1 : rng.range(1, 3);
         if (i == 0 && canImport && nIC == 0 && nIU == 0) {
             nIC = 1;
         }
